@@ -39,6 +39,8 @@ structure Mod where
   globals : List Global
   helpers : List Helper
   entries : List Entry
+  /-- located fields of the shared vertex-output / fragment-input struct: (location, interpolation, sampling) -/
+  io : List (Nat × String × String) := []
   deriving Repr, Inhabited
 
 def isResource (g : Global) : Bool := g.kind == "storage_rw" || g.kind == "storage_r" || g.kind == "uniform"
@@ -70,13 +72,20 @@ def execModel : String → Nat
 def storageClass : String → Nat
   | "storage_rw" | "storage_r" => 12 | "uniform" => 2 | "private" => 6 | _ => 4
 
-/-- Interface descriptors of the stage inputs/outputs the generator's entry points declare:
-vertex: @builtin(vertex_index) + @location(0) in, @builtin(position) out (+ PointSize when forced);
-fragment: @location(1) in, @location(0) out. -/
-def stageIO (stage : String) (forcePointSize : Bool) : List String :=
+def interpFlags (interp sampling : String) : List String :=
+  (match interp with | "flat" => ["flat"] | "linear" => ["noperspective"] | _ => []) ++
+  (match sampling with | "centroid" => ["centroid"] | "sample" => ["sample"] | _ => [])
+
+/-- `sc<class>:loc<n>[:flags]`: @interpolate(flat) ↦ Flat, linear ↦ NoPerspective, perspective ↦ none;
+centroid ↦ Centroid, sample ↦ Sample, center ↦ none — on vertex outputs and fragment inputs alike. -/
+def ioDescr (sc : Nat) (f : Nat × String × String) : String :=
+  let fl := interpFlags f.2.1 f.2.2
+  s!"sc{sc}:loc{f.1}" ++ (if fl.isEmpty then "" else ":" ++ ",".intercalate fl)
+
+def stageIO (io : List (Nat × String × String)) (stage : String) (forcePointSize : Bool) : List String :=
   match stage with
-  | "vertex" => ["sc1:builtin42", "sc1:loc0", "sc3:builtin0"] ++ (if forcePointSize then ["sc3:builtin1"] else [])
-  | "fragment" => ["sc1:loc1", "sc3:loc0"]
+  | "vertex" => ["sc1:builtin42", "sc1:loc0", "sc3:builtin0"] ++ io.map (ioDescr 3) ++ (if forcePointSize then ["sc3:builtin1"] else [])
+  | "fragment" => ["sc1:builtin15"] ++ io.map (ioDescr 1) ++ ["sc3:loc0"]
   | _ => []
 
 def globalDescr (g : Global) : String :=
@@ -91,7 +100,7 @@ def spvEntry (m : Mod) (version : Nat) (forcePointSize : Bool) (e : Entry) : Str
   -- the workgroup zero-initialisation polyfill reads LocalInvocationId (BuiltIn 27) in every compute
   -- entry point that can reach a workgroup variable
   let usesWg := (reach m e).any (fun i => ((m.globals[i]?).map (·.kind == "workgroup")).getD false)
-  let io := stageIO e.stage forcePointSize ++ (if e.stage == "compute" && usesWg then ["sc1:builtin27"] else [])
+  let io := stageIO m.io e.stage forcePointSize ++ (if e.stage == "compute" && usesWg then ["sc1:builtin27"] else [])
   let gl := if version ≥ 0x00010400 then (reach m e).filterMap (fun i => (m.globals[i]?).map globalDescr) else []
   let ls := if e.stage == "compute" then s!" ls={e.wg.1},{e.wg.2.1},{e.wg.2.2}" else ""
   s!"ep {e.name} model={execModel e.stage}{ls} iface=[{" ".intercalate (sortStr (io ++ gl))}]"
